@@ -693,3 +693,21 @@ Proof. split; [unfold ex_hist, ex_U; ok_tac|]. vm_compute. repeat split. Qed.
 (* transaction semantics of the model: a refused operation changes nothing *)
 Lemma refused_unchanged g s o : snd (step g s o) = false -> fst (step g s o) = s.
 Proof. unfold step. destruct (run g o s); [discriminate|reflexivity]. Qed.
+
+(* ------------------------------------------------------------------------------------------------ *)
+(** * IBC *)
+
+(* FX cannot leave over IBC through BaseCoinToIBCCoin (finding C04-4): the holder's WFX suffices and is refused; an observed
+   FX deposit with an IBC target cannot be executed although the chain module holds the coins *)
+Theorem ibc_fx_refuted :
+  let s := steps ex_cfg ex_s0 [OConvertCoin 0 100 100 1000] in
+  1000 <= get2 (0, 100) (ebal (sb s)) /\ snd (step ex_cfg s (OPreCrossChainIbc 0 100 100 false)) = false /\
+  300 <= get2 (1, 0) (bank (sb s)) /\ snd (step ex_cfg s (OSendToFx 1 0 100 300 2)) = false /\
+  (* the msg.value path, which skips the conversion, works *)
+  snd (step ex_cfg s (OPreCrossChainIbc 0 100 100 true)) = true.
+Proof. vm_compute. repeat split; discriminate. Qed.
+
+(* an inbound packet carrying anything but the native coin is refused (error acknowledgement), in every state *)
+Theorem ibc_voucher_unreceivable g s t tk a x :
+  find_tok g t = Some tk -> is_fx tk = false -> snd (step g s (OIbcRecv t a x)) = false.
+Proof. intros Hf Hx. unfold step, run, with_tok. rewrite Hf. unfold ibc_recv. rewrite Hx. reflexivity. Qed.
